@@ -64,15 +64,15 @@ _hist_prop("C18", ["CC.Props.C18"],
     "Lean theorems: full_decaps recovers exactly the rights whose newest secret is activated and one of whose secrets opens a component; recaps draws a new secret and targets the published keys of exactly those rights in the flavour they all support; it fails when nothing is recovered; an up-to-date authorised key opens the result. Correspondence: histories with recaps after rekeys/prunes/disables/deletions under every public key; decaps matrices of the outputs compared")
 
 PROPS["C12"] = {
-    "modules": ["CC.Props.C12"], "campaigns": [hist("C12", BOTH)], "quick_configs": ONE,
+    "modules": ["CC.Props.C12"], "campaigns": [hist("C12", BOTH), {"name": "golden", "configs": ONE}], "quick_configs": ONE, "tables": {"labels": "supporting"},
     "level_text": "Lean theorems over the KEM-DEM composition with an idealised AEAD: PKE and header round trips for every plaintext / metadata / authentication data, unauthorised => none, tampered or truncated or re-keyed ciphertext => error, AD mismatch => error when metadata is present (partial; the full statement is disproved by a witness: known finding D12), labels read from the source pairwise distinct. Correspondence + specification oracle: every plaintext length 0..70 and around 4/8 KiB, metadata x AD matrix, truncation at every length, bit flips, splices; each line compared with the model and with what the specification demands",
     "level_note": "AES-256-GCM idealised (opens only what was sealed with the same key, nonce, AD; any alteration is detected); SymmetricKey::derive / kdf256 idealised as injective in (seed, label)",
 }
 
 PROPS["C07"] = {
-    "modules": ["CC.Props.C07"], "campaigns": [hist("C07", BOTH)], "quick_configs": ONE,
-    "level_text": "Lean theorem `binding`: from injectivity of the three hashes and fixed block sizes (read from the source), a received value carrying an honest tag that passes the recomputed-tag and trap checks is the honest encapsulation component by component, with the same seed; hence any reordering / dropping / duplication / splice / byte change is rejected; the hash feed order and acceptance checks of all five functions are re-extracted from primitives.rs on every run and compared with the modelled order by `decide`. Specification oracle on the real code: every byte position x bit of four encapsulation shapes, every truncation, every structural operator, authorised and unauthorised keys: never a secret",
-    "level_note": "SHA3-256/384 idealised as injective (hypotheses of the theorem, not axioms); tag forgery excluded (2^-128); AEAD idealised for the PKE / header part; tools/gen_tables.py extraction of hasher.update sequences trusted",
+    "modules": ["CC.Props.C07"], "campaigns": [hist("C07", BOTH), {"name": "golden", "configs": ONE}], "quick_configs": ONE, "tables": {"consts": "required"},
+    "level_text": "Lean theorem `binding`: from injectivity of the three hashes and fixed block sizes (read from the source), a received value carrying an honest tag that passes the recomputed-tag and trap checks is the honest encapsulation component by component, with the same seed; hence any reordering / dropping / duplication / splice / byte change is rejected; the tie of the hashed inputs and their order to the code is behavioural: encapsulations and user keys serialised by the pinned release must still open with the same secret (golden corpus, run by this check), which any change of what is hashed breaks; the extracted feed order is reported in the evidence (informative). Specification oracle on the real code: every byte position x bit of four encapsulation shapes, every truncation, every structural operator, authorised and unauthorised keys: never a secret",
+    "level_note": "SHA3-256/384 idealised as injective (hypotheses of the theorem, not axioms); tag forgery excluded (2^-128); AEAD idealised for the PKE / header part; the golden corpus was produced by the pinned release",
 }
 
 PROPS["C08"] = {
@@ -88,7 +88,7 @@ PROPS["C13"] = {
     "level_note": "leaf (scalar / point / ML-KEM) encodings are opaque fixed-size blobs with an abstract validity predicate; Rust's String::from_utf8 is modelled by Lean's String.validateUTF8; the master-key round trip is covered by the byte-exact correspondence, not yet by a theorem",
 }
 PROPS["C14"] = {
-    "modules": ["CC.Props.C14"], "campaigns": [hist("C14", BOTH)], "quick_configs": ONE,
+    "modules": ["CC.Props.C14"], "campaigns": [hist("C14", BOTH)], "quick_configs": ONE, "tables": {"allocs": "supporting"},
     "level_text": "Lean theorems over the wire model for every byte string: reading a count consumes input; a length-prefixed vector is read only when it fits in the remaining input; a loop `for 0..n` whose reader consumes input performs at most |input|+1 reads whatever n (up to 2^64-1) and fails when n exceeds the input; pre-allocations are bounded by the remaining input (and every with_capacity / read_vec site of the source is re-extracted on every run and checked to be the bounded form); decoded encapsulations have at least one trap; the revision iterator terminates (zero chains included). Oracle on the real code in worker processes (RLIMIT_AS, watchdog, counting allocator): truncations, byte corruptions, boundary counts, random strings; accepted mutants are used; accepted => accepted by the model",
     "level_note": "time / memory of the leaves' own decoders (curve points, ML-KEM keys) and of the allocator are outside the model; the worker-process oracle measures them with fixed linear bounds",
 }
@@ -99,9 +99,9 @@ PROPS["C16"] = {
     "level_note": "CsRng idealised: every draw is a fresh atom; hash / KDF outputs injective in their inputs; the statistical run is support, not proof",
 }
 PROPS["C19"] = {
-    "modules": ["CC.Props.C19"], "campaigns": [hist("C19", BOTH)], "quick_configs": ONE,
+    "modules": ["CC.Props.C19"], "campaigns": [hist("C19", BOTH)], "quick_configs": ONE, "tables": {"locks": "required"},
     "level_text": "PARTIAL. The lock-acquisition structure of every public function of api.rs and of EncryptedHeader::{generate,decrypt} is re-extracted from the source on every run; Lean theorems: the table is well nested (no acquisition and no call to a locking function while the guard is held: `decide`), and for any number of threads running any sequences of well-nested calls: mutual exclusion, no deadlock (progress), preservation of the invariant, and termination of every schedule (each step consumes an event). The Rust memory model, the Mutex implementation, poisoning and OS scheduling are outside the model: a 2..16-thread stress run on one shared instance with result checks and a watchdog is support for that part",
-    "level_note": "std::sync::Mutex idealised (mutual exclusion; guard released at end of scope: temporaries at the end of the statement, `let` guards at the end of the block); tools/gen_locks.py (a small tokenizer, fail-closed) trusted",
+    "level_note": "std::sync::Mutex idealised (mutual exclusion; guard released at end of scope: temporaries at the end of the statement, `let` guards at the end of the block); tools/gen_tables.py (a small tokenizer, fail-closed) trusted",
 }
 
 # specification oracles evaluated on the dumps of every history campaign, and the properties they speak for
